@@ -157,7 +157,8 @@ impl<F, S: PtpInstanceStateMutex> PtpInstance<F, S> {
     /// Construct a new [`PtpInstance`] with the given config and time
     /// properties
     pub fn new(config: InstanceConfig, time_properties_ds: TimePropertiesDS) -> Self {
-        let default_ds = InternalDefaultDS::new(config);
+        let mut default_ds = InternalDefaultDS::new(config);
+        default_ds.local_time_properties = time_properties_ds;
 
         Self {
             state: S::new(PtpInstanceState {
